@@ -31,7 +31,7 @@ fn judge(prop: &str, spec: &PipeSpec, w: &crate::gen::genome::Workload, run: pip
     r.max("max_steps_seen", run.steps);
     r.max("max_tasks", run.tasks as u64);
     r.count(&format!("sched.{}", spec.sched.name()), 1);
-    r.count(if spec.cfg.single_file { "mode.single_file" } else { "mode.multi_file" }, 1);
+    r.count(if spec.api.is_some() { "driver.library_api" } else if spec.cfg.single_file { "mode.single_file" } else { "mode.multi_file" }, 1);
     r.count("sim_time_ms", run.world.clock_ms);
     for (k, v) in &run.world.fault_fired {
         r.count(&format!("fault.{k}"), *v);
@@ -274,7 +274,14 @@ impl Prop for C01 {
         match tier { Tier::Quick => 30_000, Tier::Thorough => 3_000_000 }
     }
     fn run_chunk(&self, ctx: &Ctx, indices: &[u64]) -> Vec<RunReport> {
-        let specs: Vec<PipeSpec> = indices.iter().map(|&i| pipeline::generate(seed::run_seed(ctx.base_seed ^ 0xC01, i))).collect();
+        // every fourth run goes through the library API instead of the CLI driver
+        let specs: Vec<PipeSpec> = indices
+            .iter()
+            .map(|&i| {
+                let rs = seed::run_seed(ctx.base_seed ^ 0xC01, i);
+                if i % 4 == 3 { pipeline::generate_api(rs, 0) } else { pipeline::generate(rs) }
+            })
+            .collect();
         run_specs("C01", specs, indices)
     }
     fn replay(&self, _ctx: &Ctx, spec: &Value) -> RunReport {
@@ -304,7 +311,15 @@ impl Prop for C05 {
         match tier { Tier::Quick => 40_000, Tier::Thorough => 4_000_000 }
     }
     fn run_chunk(&self, ctx: &Ctx, indices: &[u64]) -> Vec<RunReport> {
-        let specs: Vec<PipeSpec> = indices.iter().map(|&i| pipeline::generate_with(seed::run_seed(ctx.base_seed ^ 0xC05, i), 12)).collect();
+        // every third run drives the library API (push / drain / sync_and_flush at generated
+        // points / finalize) instead of the CLI driver's fixed call pattern
+        let specs: Vec<PipeSpec> = indices
+            .iter()
+            .map(|&i| {
+                let rs = seed::run_seed(ctx.base_seed ^ 0xC05, i);
+                if i % 3 == 2 { pipeline::generate_api(rs, 12) } else { pipeline::generate_with(rs, 12) }
+            })
+            .collect();
         run_specs("C05", specs, indices)
     }
     fn replay(&self, _ctx: &Ctx, spec: &Value) -> RunReport {
